@@ -196,11 +196,10 @@ def run_idd(case, stt):
     try:
         y = pb.incoherent_dedispersion(z, D, **kw)
     except ValueError as e:
-        check(window_cons <= 0, "incoherent_dedispersion raised ValueError ({}) although {} output times have in-range sources in every channel",
-              str(e)[:80], window_cons)
-        stt.label("refused_no_valid_output")
-        stt.nt(False)
-        return
+        # "only samples with in-range sources in every channel are returned": when there are none, that is an empty signal -- as for a delay
+        # spread of twice the length or more, and as coherent dedispersion does -- not an error from the array stacking underneath
+        raise Violation("incoherent_dedispersion raised ValueError (%s); %d output times have in-range sources in every channel%s" % (
+            str(e)[:80], max(window_cons, 0), "" if window_cons > 0 else ": expected an empty signal"))
     except Exception as e:  # any other exception from the library on a valid input
         raise Violation(f"incoherent_dedispersion raised {type(e).__name__}: {e}")
     contract(y, "incoherent_dedispersion")
